@@ -196,6 +196,8 @@ class C26(Check):
             ("/s/(.*)", StaticFileHandler, {"path": root}),
             ("/d/(.*)", StaticFileHandler, {"path": root, "default_filename": "index.html"}),
             ("/t/(.*)", StaticFileHandler, {"path": root + "/", "default_filename": "index.html"}),
+            # a second handler with its own root beside the first one (what it serves is cached per class)
+            ("/o/(.*)", StaticFileHandler, {"path": T + "/root2"}),
         ])
 
     def _fs(self, T):
@@ -217,6 +219,12 @@ class C26(Check):
             app1, app2 = self._apps(T1), self._apps(T2)
             fs = self._fs(T1)
             with wf.Client() as cl:
+                # the neighbouring handler has already served its files (state shared between handlers must not
+                # open its root to the others)
+                for name in ("secret", "a", "index.html"):
+                    rs, ps, _, _ = cl.request(app1, [("GET", ("/o/" + name).encode(), [])])
+                    if len(rs) != 1 or rs[0].code != 200:
+                        st.error("warm-up request /o/%s failed: %r %r" % (name, [r.code for r in rs], ps))
                 for i, (segs, js, trail) in enumerate(self.cases(tier)):
                     if i % NPARTS != part:
                         continue
